@@ -29,7 +29,7 @@ def build(mt):
     try:
         enc = wrec.Enc()
         T = mt['T2'] / 2.0 if mt['T2'] < 2 * wrec.INF else None
-        w = wrec.run_wave(cls, c, d, mt['lanes'], mt['caps'], mt['inw'], actrl=a, T=T)
+        w = wrec.run_wave(cls, c, d, mt['lanes'], mt['caps'], mt['inw'], actrl=a, T=T, warmup=mt.get('warm'))
         rec.update(wrec.observe(w, c, mt['lanes'], enc))
         big = wrec.run_wave(cls, c, d, mt['lanes'], 64, mt['inw'], T=T)
         rec['big'] = dict(port=wrec.observe(big, c, mt['lanes'], enc, lines=False)['port'])
@@ -53,7 +53,7 @@ def make(ck, rnd, n):
         T2 = rnd.choice([2 * wrec.INF, 2 * rnd.randint(0, 20), 2 * rnd.randint(0, 20) + 1, 2 * rnd.randint(0, 12)])
         actrl = wsim.rand_actrl(rnd, c).tolist() if rnd.random() < 0.7 else None
         mt = dict(circuit=gen.circuit_state(c), lanes=lanes, delays=d.tolist(), caps=rnd.choice([4, 4, 8]), inw=wrec.rand_inputs(rnd, c, lanes, multi=True, tmax=12),
-                  cls=rnd.choice(['WaveSim', 'WaveSimCuda']), T2=T2, actrl=actrl)
+                  cls=rnd.choice(['WaveSim', 'WaveSimCuda']), T2=T2, actrl=actrl, warm=wrec.rand_inputs(rnd, c, lanes, multi=True, tmax=12) if rnd.random() < 0.4 else None)
         mt['desc'] = '%s caps=%s T=%s actrl=%s' % (mt['cls'], mt['caps'], 'TMAX' if T2 >= 2 * wrec.INF else T2 / 2, actrl is not None)
         recs.append(build(mt))
         metas.append(mt)
